@@ -46,6 +46,9 @@ theorem c20_first_match_error (cond : Option Caps) (url : UrlParts) (subject : B
   rw [processFrom_skip cond url subject pre _ 0 hpre]
   simp [processFrom]
 
+example : process none ⟨none, none, 80, ofString "/x", none⟩ (ofString "/x")
+    [(ofString "/A", .nomatch), (ofString "/B", .error), (ofString "/C", .matched [some (0, 2)])] = .error := by decide
+
 /-- url.redirect: the Location header is the expansion of the first matching rule's template, the
     status is url.redirect-code if configured, else 301 for GET/HEAD or HTTP/1.0 requests and 308
     otherwise; no matching rule (or a blank template) means no redirect. -/
@@ -70,18 +73,27 @@ example : (match redirect 0 false false none
 
 /-! ## modifiers -/
 
-/-- pcre_keyvalue_buffer_subst_ext(): every documented modifier name (esc, escape, escnde, escpsnde,
-    noesc, noescape, tolower, toupper, encb64u, decb64u — `documentedModifiers` pairs each name with
-    the burl.h recoding it is documented to select), at any position of the modifier list of a
-    `${...}` / `%{...}`, selects exactly that recoding and consumes exactly its own name.  The flags
-    OR-ed in by the model are the ones *extracted from the C function*, so a wrong name -> flag
-    mapping in keyvalue.c makes this unprovable. -/
+/-- The modifier-name -> recoding map of pcre_keyvalue_buffer_subst_ext(), *extracted from the C
+    function of the current tree* (Extracted/KvModifiers.lean), is the documented one: esc/escape
+    select "encode all", escnde "no double encoding", escpsnde the same preserving '/', noesc/noescape
+    "no encoding", tolower / toupper the case mappings, encb64u / decb64u the base64url codec; and a
+    capture without any modifier is recoded like escpsnde.  A wrong mapping in keyvalue.c (e.g.
+    "upper:" selecting BURL_TOLOWER) makes exactly this theorem unprovable. -/
+theorem c20_modifier_map : ModifierMapAsDocumented := by
+  refine ⟨?_, by decide⟩
+  intro m
+  cases m <;> decide
+
+/-- pcre_keyvalue_buffer_subst_ext(): every documented modifier name (`documentedModifiers` pairs
+    each name with the burl.h recoding it is documented to select), at any position of the modifier
+    list of a `${...}` / `%{...}`, selects exactly that recoding and consumes exactly its own name. -/
 theorem c20_modifiers_as_named : ∀ m ∈ documentedModifiers,
     ∀ (env : Env) (sigil : UInt8) (out p : Bytes) (pos fl : Nat),
       extGo env sigil out (m.1 ++ p) 0 pos fl = extGo env sigil out p 0 (pos + m.1.length) (fl ||| m.2) := by
   intro m hm env sigil out p pos fl
   simp only [documentedModifiers, List.mem_map] at hm
   obtain ⟨md, _, rfl⟩ := hm
+  rw [← c20_modifier_map.1 md]
   exact extGo_modifier md env sigil out p pos fl
 
 example : (ofString "toupper:", Extracted.burlToUpper) ∈ documentedModifiers ∧
@@ -97,6 +109,8 @@ theorem c20_noesc_identity (s look : Bytes) : burlAppend Extracted.burlEncodeNon
   by_cases h : s = []
   · simp [h]
   · simp [h, burlEncode, flagSet, Extracted.burlEncodeNone, Extracted.burlToLower, Extracted.burlToUpper]
+
+example : burlAppend Extracted.burlEncodeNone (ofString "a b/%zz?") [] = ofString "a b/%zz?" := by decide
 
 /-- `${esc:…}`: the inserted string consists of unreserved characters and %HH triplets only -/
 theorem c20_esc_output_safe (s look : Bytes) : PctSafe (burlAppend Extracted.burlEncodeAll s look) := by
@@ -156,7 +170,7 @@ example : b64uDec (ofString "aGVs!bG8") = [] := by decide
     modifiers) gives. -/
 theorem c20_template_interpreter (env : Env) (toks : List Tok) (hw : ∀ tk ∈ toks, tk.WF) :
     subst env (toks.flatMap Tok.render) = interpret env toks [] := by
-  have := substGo_interpret env toks hw [] []
+  have := substGo_interpret c20_modifier_map env toks hw [] []
   simpa [subst, substGo] using this
 
 example : [Tok.lit (ofString "/n/"), .ext dollar [.tolower, .noesc] (.cap 49), .sigil pct, .raw pct 49,
@@ -251,6 +265,9 @@ theorem c20_braced_capture (env : Env) (d : UInt8) (t out : Bytes) (hd : isDigit
   simp only [substExt, extGo, hd, if_true]
   simp [extNumber, isDigit, rbrace, idxOf?, capAppend, Extracted.kvMod_default,
         Extracted.burlEncodePsnde, dollar]
+
+example : subst ⟨⟨ofString "/a b/%41%2f", [some (0, 11), some (1, 11)]⟩, none, ⟨none, none, 80, [], none⟩⟩
+    (ofString "/${1}") = ofString "/a%20b/A%2f" := by decide
 
 /-! ## ${qsa} and ${url.*} -/
 
